@@ -199,7 +199,7 @@ class GenB(GenA):
         rng = self.rng
         lc = self.run.lc
         kinds = ['dup_uses', 'dup_create', 'undeclared_transfer', 'undeclared_remove', 'undeclared_fill', 'undeclared_dilute',
-                 'nested_stage', 'dup_stage', 'wrong_end', 'end_none', 'end_all']
+                 'nested_stage', 'dup_stage', 'wrong_end', 'end_none', 'end_all', 'dup_in_call', 'bad_args']
         k = rng.choice(kinds)
         decl = list(lc.declared)
         und = [n for n in self.undeclared if n not in lc.declared]
@@ -212,6 +212,16 @@ class GenB(GenA):
             if und and rng.random() < 0.5:
                 objs = [und[0], n] if rng.random() < 0.5 else [n, und[0]]
             return {'c': 'uses', 'objs': objs}
+        if k == 'dup_in_call' and und:
+            # two objects of one name in a single uses() call (the same vessel twice, or an older and a newer version of it)
+            n = und[0]
+            c = {'c': 'uses', 'objs': [n, n], 'aslist': rng.random() < 0.3}
+            nv = len(self.W.reg.get(n, []))
+            if nv > 1 and rng.random() < 0.7:
+                c['vers'] = [0, -1]
+            return c
+        if k == 'bad_args' and decl:
+            return self.bad_args_call(rng.choice(decl))
         if k == 'dup_create' and decl:
             return {'c': 'create_container', 'name': rng.choice(decl), 'cap': '10 mL', 'contents': []}
         if k.startswith('undeclared') and und:
@@ -248,6 +258,27 @@ class GenB(GenA):
             return {'c': 'end_stage', 'name': rng.choice(sorted(lc.stage_names - {'all'}) or ['zz'])}
         if k == 'end_all' and lc.open_stage is None:
             return {'c': 'end_stage', 'name': 'all'}
+        return None
+
+    def bad_args_call(self, name):
+        """A step-adding call that names a declared object but is malformed for another reason: it must be rejected and
+        must not count as a use of the object."""
+        rng = self.rng
+        o = self.run.eager.get(name)
+        if o is None:
+            return None
+        isplate = isinstance(o, self.run.rep.Plate)
+        solvents = [n for n in self.subs_of() if not self.W.msubs[n].is_enzyme]
+        enz = self.subs_of(M.ENZYME)
+        kind = rng.choice(['transfer_q', 'fill_q', 'dilute_enzyme'])
+        other = [x for x in self.run.lc.declared if x != name and self.run.eager.get(x) is not None]
+        if kind == 'transfer_q' and other:
+            return {'c': 'transfer', 'src': [name], 'dst': [rng.choice(other)], 'q': 5, 'may_be_invalid': True, 'must_reject': True}
+        if kind == 'fill_q':
+            return {'c': 'fill_to', 'tgt': [name], 'solvent': rng.choice(solvents), 'q': 3.5, 'may_be_invalid': True, 'must_reject': True}
+        if kind == 'dilute_enzyme' and enz and not isplate:
+            return {'c': 'dilute', 'tgt': [name], 'solute': enz[0], 'conc': '1 U/mL', 'solvent': rng.choice(solvents),
+                    'may_be_invalid': True, 'must_reject': True}
         return None
 
     def post_bake_call(self):
